@@ -14,7 +14,7 @@
    arbitrary, only ever compared for equality).  The model numbers the sets 0, 1, 2, ... in
    the order they are created.  No proofs here. *)
 From Coq Require Import List Arith Bool.
-From AV Require Import Base.Util Spec.Lang Spec.FA Model.Decide Model.Minimize.
+From AV Require Import Base.Util Spec.Lang Spec.FA Model.FARun Model.Decide Model.Minimize.
 Import ListNotations.
 
 (* ---- PartitionRefinement (utils.py 141-202) and the loop, over any item type ---- *)
@@ -198,3 +198,63 @@ Definition hminify_full (m : dfa) sched sord : res (dfa * list (list nat)) :=
 
 Definition hto_partial_min_full (m : dfa) sched sord : res (dfa * list (list nat)) :=
   bind (kept_live m) (fun K => hminify_core m K sched sord).
+
+(* ---- the construction of the result as coded (dfa.py 676-725), retain_names=False:
+        names = positions in get_sets(), the representative of a class = rep (any member),
+        its row filtered through back_map ---- *)
+Section Coded.
+  Variable m : dfa.
+  Variable K : list nat.
+  Variable P : prs (option nat).
+  Variable rep : list nat -> nat.        (* next(iter(eq)) for a class without the trap *)
+
+  Definition c_sets : list (list (option nat)) := get_sets oeqb (h_states m K) P.
+
+  (* list(enumerate(eq_classes.get_sets())) *)
+  Definition c_pairs : list (nat * list (option nat)) := combine (seq 0 (length c_sets)) c_sets.
+
+  (* `trap_state in eq` (never true when no trap was created: None is then no item) *)
+  Definition c_has_trap (eq : list (option nat)) : bool := gmem oeqb None eq.
+
+  (* back_map, dfa.py 684-689: state -> name, the trap's class left out *)
+  Definition c_back_map : list (nat * nat) :=
+    flat_map (fun p => if c_has_trap (snd p) then [] else map (fun q => (q, fst p)) (somes (snd p))) c_pairs.
+
+  Definition c_name (q : nat) : res nat :=
+    match assoc q c_back_map with Some n => Ok n | None => Err KeyErr end.
+
+  (* dfa.py 706-718: the new row of one class *)
+  Definition c_row (eq : list (option nat)) : res (list (nat * nat)) :=
+    match d_row m (rep (somes eq)) with
+    | None => Err KeyErr                                   (* transitions[eq_class_rep] *)
+    | Some old =>
+      Ok (flat_map (fun p => match assoc (snd p) c_back_map with Some n => [(fst p, n)] | None => [] end) old)
+    end.
+
+  Definition c_live : list (nat * list (option nat)) := filter (fun p => negb (c_has_trap (snd p))) c_pairs.
+
+  (* second component: the classes themselves (the names retain_names=True would give) *)
+  Definition c_quotient : res (dfa * list (list nat)) :=
+    match c_back_map with
+    | [] => Ok (empty_language (d_syms m), [])             (* `if not back_map` *)
+    | _ :: _ =>
+      bind (c_name (d_init m)) (fun i0 =>                  (* back_map[initial_state] *)
+      bind (mapM c_name (filter (fun q => memb q (d_finals m)) K)) (fun fs =>
+      bind (mapM (fun p => bind (c_row (snd p)) (fun r => Ok (fst p, r))) c_live) (fun tr =>
+      Ok (mkdfa (set_of (map snd c_back_map)) (d_syms m) tr i0 (set_of fs)
+                (existsb (fun r => negb (Nat.eqb (length (snd r)) (length (d_syms m)))) tr),
+          map (fun p => somes (snd p)) c_live))))
+    end.
+End Coded.
+
+Definition cminify_core (m : dfa) (K : list nat) sched sord rep : res (dfa * list (list nat)) :=
+  match h_hopcroft m K sched sord with
+  | None => Err Fuel
+  | Some P => c_quotient m K P rep
+  end.
+
+(* DFA.minify(retain_names=False) and DFA.to_partial(minify=True), every step as coded *)
+Definition cminify_full (m : dfa) sched sord rep : res (dfa * list (list nat)) :=
+  bind (kept_minify m) (fun K => cminify_core m K sched sord rep).
+Definition cto_partial_min_full (m : dfa) sched sord rep : res (dfa * list (list nat)) :=
+  bind (kept_live m) (fun K => cminify_core m K sched sord rep).
